@@ -143,6 +143,27 @@ def run_job(job, timeout_ms=10000, second_opinion=False):
                 s2.add(z3.Not(o.formula))
                 r = cvc5_check(s2.to_smt2(), timeout_ms // 1000)
                 o.detail = f"cvc5: {r}"
+            tru = ex.labels.get(("truthy",)) or []
+            if o.status == "refuted" and job.lang == "py" and tru and job.expect != "refuted":
+                # conditions the engine does not know (truthiness of opaque values) were chosen by the solver: the
+                # refutation only counts when a counter-model exists for EVERY valuation of these conditions
+                import itertools as _it
+                syms = [t for t in tru if str(t) in o.formula.sexpr()][:5]
+                definite = True
+                for vals in _it.product([True, False], repeat=len(syms)):
+                    s3 = z3.Solver()
+                    s3.set("timeout", 3000)
+                    s3.add(z3.Not(o.formula), *[t == z3.BoolVal(v) for t, v in zip(syms, vals)])
+                    if s3.check() != z3.sat:
+                        definite = False
+                        break
+                if not definite:
+                    o.status = "undecided"
+                    o.detail = "counter-model depends on the value of a condition the encoding does not know (opaque call result)"
+            if o.status == "refuted" and ex.labels.get(("abstracted",)) and job.expect != "refuted":
+                o.status = "undecided"
+                o.detail = ("counter-model exists only under an over-approximation of statements outside the encodable "
+                            "subset: " + "; ".join(ex.labels[("abstracted",)][:3]))
             out["results"].append({"id": o.id, "kind": o.kind, "func": o.func, "text": o.text,
                                    "status": o.status, "backend": o.backend, "time": round(o.time, 4),
                                    "model": o.model, "detail": o.detail, "line": o.line})
